@@ -87,7 +87,7 @@ func resClass(res time.Duration) string {
 
 func advances(n int, res time.Duration) []time.Duration {
 	return []time.Duration{
-		res / 2, res, 3 * res / 2,
+		res / 3, res / 2, res, 3 * res / 2,
 		time.Duration(n-1) * res, time.Duration(n) * res, time.Duration(n+1) * res,
 		2*time.Duration(n)*res + res/2,
 	}
@@ -101,7 +101,8 @@ func configs(tier string) []config {
 	var out []config
 	for _, n := range ns {
 		for _, r := range rs {
-			bases := []time.Time{t0, t0.Add(300 * time.Millisecond), t0.Truncate(time.Duration(n) * r)}
+			// clock phases inside a slot: as in the tests, slightly off, deep inside a slot, slot-aligned
+			bases := []time.Time{t0, t0.Add(300 * time.Millisecond), t0.Add(r * 65 / 100), t0.Truncate(time.Duration(n) * r)}
 			for bi, b := range bases {
 				out = append(out, config{n, r, b, fmt.Sprintf("N=%d,r=%v,base#%d", n, r, bi)})
 			}
@@ -179,7 +180,7 @@ func counterModel(cfg config, depth int, rep *lib.Report) *lib.Model[*sys] {
 
 func ratioModel(cfg config, depth int, rep *lib.Report) *lib.Model[*sys] {
 	adv := advances(cfg.n, cfg.res)
-	adv = []time.Duration{adv[0], adv[1], adv[3], adv[4], adv[6]}
+	adv = []time.Duration{adv[0], adv[1], adv[2], adv[4], adv[5], adv[7]}
 	ops := []string{"IncA(1)", "IncB(1)", "Ratio", "IncA(3)"}
 	for _, d := range adv {
 		ops = append(ops, fmt.Sprintf("Advance(%v)", d))
@@ -257,8 +258,8 @@ func Run(tier string, sh lib.Shard, rep *lib.Report) {
 	}
 	rep.Bounds["counter_history_depth"] = depth
 	rep.Bounds["ratio_history_depth"] = rdepth
-	rep.Bounds["alphabet_counter"] = "Inc(1) Count Inc(3) Advance{r/2,r,3r/2,(N-1)r,Nr,(N+1)r,2Nr+r/2}"
-	rep.Bounds["configurations"] = "N in {1,2,3,5,10} x r in {1s,1.5s,2s,2.5s,3s,7s,10s,60s} x 3 clock bases"
+	rep.Bounds["alphabet_counter"] = "Inc(1) Count Inc(3) Advance{r/3,r/2,r,3r/2,(N-1)r,Nr,(N+1)r,2Nr+r/2}"
+	rep.Bounds["configurations"] = "N in {1,2,3,5,10} x r in {1s,1.5s,2s,2.5s,3s,7s,10s,60s} x 4 clock phases"
 	rep.Rule = "breadth-first search over all operation histories up to the depth bound on the real counter; state key = reflective dump of the counter + absolute instant + reference increments still inside N*r (exact key: merges only identical futures); a state is non-trivial when the reference window holds at least one increment"
 	rep.Assume("A2: one API call observes one instant of the frozen clock")
 	rep.Require("states_with_recent_increments", "states_with_boundary_latitude", "states_after_everything_aged_out", "ratio_states_nonempty_window", "ratio_states_empty_window")
